@@ -903,3 +903,87 @@ def cone(assertions, seeds):
     order = {a: i for i, a in enumerate(assertions)}
     picked.sort(key=lambda a: order[a])
     return picked
+
+
+# ---------------------------------------------------------------- bounded falsification
+def has_quantifier(t):
+    return any(x.op in ("forall", "exists") for x in subterms(t))
+
+
+def bounded_instance(assertions, K=2):
+    """For falsification only.  Every quantifier of the shapes
+         forall i. (lo <= i < hi) => body        exists i. (lo <= i < hi) and body
+    is replaced by its expansion over K indices, and  hi - lo <= K  is added as a constraint.  Under that
+    constraint the expansion is EQUIVALENT to the quantifier, so any model of the result is a model of the
+    original assertions.  Returns None if some quantifier has another shape."""
+    bounds = []
+    memo = {}
+    ok = [True]
+
+    def rw(t):
+        if t in memo:
+            return memo[t]
+        if not has_quantifier(t):
+            memo[t] = t
+            return t
+        if t.op in ("forall", "exists"):
+            bvs, body = t.args
+            body = rw(body)
+            r = None
+            if len(bvs) == 1:
+                i = bvs[0]
+                if t.op == "forall" and body.op == "=>":
+                    guard, inner = body.args
+                elif t.op == "exists" and body.op == "and":
+                    gs = [c for c in body.args if _is_range_conj(c, i)]
+                    guard = And(*gs)
+                    inner = And(*[c for c in body.args if c not in gs])
+                else:
+                    guard = inner = None
+                if guard is not None:
+                    lohi = _range_of(guard, i)
+                    if lohi is not None:
+                        lo, hi = lohi
+                        bounds.append(Le(Sub(hi, lo), Int(K)))
+                        parts = []
+                        for k in range(K):
+                            idx = Add(lo, Int(k))
+                            inst = substitute(inner, {i: idx})
+                            parts.append(Implies(Lt(idx, hi), inst) if t.op == "forall" else And(Lt(idx, hi), inst))
+                        r = And(*parts) if t.op == "forall" else Or(*parts)
+            if r is None:
+                ok[0] = False
+                r = t
+        elif t.op == "uf":
+            r = T("uf", (t.args[0],) + tuple(rw(a) for a in t.args[1:]), t.sort)
+        else:
+            r = rebuild(t, tuple(rw(a) for a in t.args))
+        memo[t] = r
+        return r
+
+    out = [rw(a) for a in assertions]
+    if not ok[0]:
+        return None
+    # bounds may mention bound variables of enclosing quantifiers that were expanded: keep closed ones only
+    if any(x.op == "bvar" for b in bounds for x in subterms(b)):
+        return None         # nested ranges depending on an outer index: no equivalence, give up
+    return bounds + out
+
+
+def _is_range_conj(c, i):
+    return (c.op == "<=" and c.args[1] is i) or (c.op == "<" and c.args[0] is i)
+
+
+def _range_of(guard, i):
+    conj = guard.args if guard.op == "and" else (guard,)
+    lo = hi = None
+    for c in conj:
+        if c.op == "<=" and c.args[1] is i:
+            lo = c.args[0]
+        elif c.op == "<" and c.args[0] is i:
+            hi = c.args[1]
+        else:
+            return None
+    if lo is None or hi is None:
+        return None
+    return lo, hi
